@@ -93,4 +93,102 @@ theorem piped_isset_judges_value (r : Rec) (env : Env) (p : Val) (rt : RT) :
   simp [Args.isSet]
   rfl
 
+/-! ### exactness on field paths: true exactly when every step resolves to something that is not nil -/
+
+/-- every step of a field path resolves - by the engine's own `resolveIndex`, the function every field
+    access goes through - to a value that is not nil -/
+def PathResolves : Val → List Bytes → Prop
+  | _, [] => True
+  | v, f :: rest => ∃ x, resolveIndex v .invalid (some f) = .ok x ∧ notNilP x = .ok true ∧ PathResolves x rest
+
+/-- `isset(.a.b.c)` on a value is true **exactly** when `.a`, `.a.b` and `.a.b.c` all resolve and none of
+    them is nil; a step that fails to resolve (missing field, nil pointer on the way, index into a scalar)
+    or resolves to nil makes it not-true, whatever comes after -/
+theorem isSetFieldPath_true_iff : ∀ (names : List Bytes) (v : Val),
+    isSetFieldPath v names = .ok true ↔ PathResolves v names
+  | [], v => by simp [isSetFieldPath, PathResolves, pure, Except.pure]
+  | f :: rest, v => by
+    unfold isSetFieldPath PathResolves
+    cases hr : resolveIndex v .invalid (some f) with
+    | error e =>
+      constructor
+      · intro h; simp [bind, Except.bind] at h
+      · rintro ⟨x, hx, _⟩; cases hx
+    | ok x =>
+      cases hn : notNilP x with
+      | error e =>
+        constructor
+        · intro h; simp [bind, Except.bind, hn] at h
+        · rintro ⟨y, hy, hny, _⟩
+          cases hy
+          rw [hn] at hny; cases hny
+      | ok b =>
+        cases b with
+        | false =>
+          constructor
+          · intro h; simp [bind, Except.bind, hn, pure, Except.pure] at h
+          · rintro ⟨y, hy, hny, _⟩
+            cases hy
+            rw [hn] at hny; cases hny
+        | true =>
+          have ih := isSetFieldPath_true_iff rest x
+          constructor
+          · intro h
+            simp [bind, Except.bind, hn] at h
+            exact ⟨x, rfl, hn, ih.mp h⟩
+          · rintro ⟨y, hy, _, hrest⟩
+            cases hy
+            simp [bind, Except.bind, hn]
+            exact ih.mpr hrest
+
+/-- what exists along a longer path exists along every prefix of it -/
+theorem pathResolves_prefix : ∀ (p q : List Bytes) (v : Val), PathResolves v (p ++ q) → PathResolves v p
+  | [], _, _, _ => trivial
+  | f :: p, q, v, h => by
+    obtain ⟨x, hx, hn, hrest⟩ := h
+    exact ⟨x, hx, hn, pathResolves_prefix p q x hrest⟩
+
+/-- `Runtime.isSet` on a field expression `.a.b.c`: it answers true exactly when the path resolves from
+    the current context - and, with `isSet_never_fails`, answers false or stays outside the model otherwise -/
+theorem isset_field_exact (r : Rec) (env : Env) (loc : Loc) (names : List Bytes) (rt : RT) :
+    (∃ rt', isSetF r env (.field loc names) rt = .ok true rt') ↔ PathResolves rt.ctx names := by
+  rw [← isSetFieldPath_true_iff]
+  unfold isSetF recoverFalse isSetBody
+  simp only [bind, getRT]
+  cases hp : isSetFieldPath rt.ctx names with
+  | ok b =>
+    simp only [liftP]
+    constructor
+    · rintro ⟨rt', h⟩
+      simp at h
+      rw [h.1]
+    · intro h
+      cases h
+      exact ⟨rt, rfl⟩
+  | error e =>
+    cases e with
+    | err e' =>
+      simp only [liftP]
+      constructor
+      · rintro ⟨rt', h⟩; simp at h
+      · intro h; cases h
+    | crash s =>
+      simp only [liftP]
+      constructor
+      · rintro ⟨rt', h⟩; simp at h
+      · intro h; cases h
+    | unsupported w =>
+      simp only [liftP]
+      constructor
+      · rintro ⟨rt', h⟩; simp at h
+      · intro h; cases h
+
+/-- the premises are satisfiable and the distinction is real: in a struct with a present field, a nil
+    pointer field and nothing else, the first path resolves, the other two do not -/
+example :
+    let v : Val := .struct "T" [([65], .int 0), ([80], .ptr "T" none)]
+    isSetFieldPath v [[65]] = .ok true ∧ isSetFieldPath v [[80]] = .ok false ∧
+    isSetFieldPath v [[80], [65]] = .ok false ∧ (∃ e, isSetFieldPath v [[90]] = .error e) :=
+  ⟨rfl, rfl, rfl, _, rfl⟩
+
 end JetVerif.Props.C17
